@@ -68,11 +68,18 @@ def evaluate(sid, checks, tier):
         if a.returncode != 0:
             raise RuntimeError("patch does not apply: " + a.stderr)
         scratch = tempfile.mkdtemp(prefix="mosromgr-seedout-", dir="/tmp")
+        # run the checks from a snapshot of the framework, so that editing /verif meanwhile cannot disturb the evaluation
+        snap = os.path.join(scratch, "verif")
+        os.makedirs(snap)
+        for d in ("harness", "spec"):
+            shutil.copytree(os.path.join(VERIF, d), os.path.join(snap, d), ignore=shutil.ignore_patterns("__pycache__"))
+        for f in ("check", "known_findings.json", "properties.jsonl"):
+            shutil.copy(os.path.join(VERIF, f), os.path.join(snap, f))
         res = {}
         try:
             for c in checks:
                 t0 = time.time()
-                r = sh([os.path.join(VERIF, "check"), c, "--tier", tier],
+                r = sh([os.path.join(snap, "check"), c, "--tier", tier],
                        env=dict(os.environ, VERIF_REPO=wt, VERIF_SCRATCH=scratch), timeout=7200)
                 lines = [ln for ln in r.stdout.splitlines() if ln.startswith(("VIOLATION", "MACHINERY", "KNOWN"))]
                 res[c] = {"rc": r.returncode, "wall_s": round(time.time() - t0, 1), "lines": [ln[:300] for ln in lines[:6]],
